@@ -125,7 +125,8 @@ def _tensor(shape, init=None, *, dtype=DataType.REAL, learnable=True):
 
 
 MONO_WEIGHT_KINDS = ["softmax", "exp", "softplus", "sigmoid", "square", "scaled_sigmoid", "clamp", "const_pos", "dirichlet"]
-ANY_WEIGHT_KINDS = MONO_WEIGHT_KINDS + ["raw", "raw", "hadamard2", "sum2", "const"]
+MONO_WEIGHT_KINDS = MONO_WEIGHT_KINDS + ["softmax0"]
+ANY_WEIGHT_KINDS = MONO_WEIGHT_KINDS + ["raw", "raw", "hadamard2", "sum2", "const", "log_softmax", "log_softmax0"]
 
 
 def weight_param(rng: random.Random, kind: str, shape, *, dtype=DataType.REAL) -> P.Parameter:
@@ -133,6 +134,11 @@ def weight_param(rng: random.Random, kind: str, shape, *, dtype=DataType.REAL) -
         return P.Parameter.from_input(_tensor(shape, dtype=dtype))
     if kind == "softmax":
         return P.Parameter.from_unary(P.SoftmaxParameter(shape, axis=rng.choice([1, -1])), _tensor(shape))
+    if kind == "softmax0":  # normalised over the first axis (not the last one)
+        return P.Parameter.from_unary(P.SoftmaxParameter(shape, axis=rng.choice([0, -len(shape)])), _tensor(shape))
+    if kind in ("log_softmax", "log_softmax0"):  # Log o Softmax: rewritten to LogSoftmax by the optimiser
+        ax = rng.choice([1, -1]) if kind == "log_softmax" else rng.choice([0, -len(shape)])
+        return P.Parameter.from_sequence(_tensor(shape), P.SoftmaxParameter(shape, axis=ax), P.LogParameter(shape))
     if kind == "exp":
         return P.Parameter.from_unary(P.ExpParameter(shape), _tensor(shape, NormalInitializer(0.0, 0.5)))
     if kind == "softplus":
